@@ -1449,12 +1449,30 @@ def run_chain(scenario, count=None, on_event=None):
     install()
     if ON_RUN is not None:
         ON_RUN()
+    # an EARLIER connection in this process (see run_scenario): on the same WebSocket object - which the chain then
+    # goes on using - or on another one
+    prelude = scenario["prelude"] if "prelude" in scenario else CASE_PRELUDE
+    pre_ws = None
+    if prelude:
+        pre = dict(scenario, attempts=prelude["attempts"], reactions=prelude.get("reactions", []), prelude=None,
+                   companion=None, context_manager=bool(prelude.get("context_manager")))
+        for k in ("masks", "_send_hook", "_idle_hook", "horizon", "io_reactions", "keys"):
+            pre.pop(k, None)
+        pre_tr = run_scenario(pre)
+        if prelude.get("same_object"):
+            pre_ws = pre_tr.ws
+        pre_tr.held = None
+        del pre_tr
+        scenario = dict(scenario, _reuse_ws=pre_ws)
     cspec = scenario["companion"] if "companion" in scenario else CASE_COMPANION
     companion = None
     if cspec:
         companion = Companion(cspec, scenario)
         companion.start()
     sim = Sim(scenario)
+    if pre_ws is not None and sim.keys:
+        # the scripted key list starts with the key drawn when the object is constructed: this object already exists
+        sim.keys = sim.keys[1:]
     traces = []
     if companion is not None and companion.mode == "blocked_in_send":
         try:
@@ -1476,7 +1494,9 @@ def _run_chain_body(scenario, count, on_event, sim, traces, companion):
     global CURRENT
     CURRENT = sim
     try:
-        ws = make_ws(scenario)
+        ws = scenario.get("_reuse_ws")
+        if ws is None:
+            ws = make_ws(scenario)
         sim.ws = ws
         for k in range(count or len(scenario["attempts"])):
             att = scenario["attempts"][k] if k < len(scenario["attempts"]) else {}
